@@ -53,7 +53,14 @@ fn field(rng: &mut Rng, dir: &std::path::Path, tag: &str, sqlite_receiver: bool)
     let n1 = w.add_client(BackendKind::Memory, cfg.clone(), rng);
     let n2 = w.add_client(if sqlite_receiver { BackendKind::Sqlite } else { BackendKind::Memory }, cfg.clone(), rng);
     let rm = w.add_client(BackendKind::Memory, cfg.clone(), rng);
-    let g = w.create_group(&[a0, a1, n1, n2, rm], &[a0, a1], None, "field");
+    // leaf order is random behind the creator: the leaf freed by the removal below may lie anywhere,
+    // so that dense positions and leaf indices differ for whoever sits to its right, and an admin may
+    // sit to the right of a non-admin
+    let mut rest = vec![a1, n1, n2, rm];
+    rng.shuffle(&mut rest);
+    let mut order = vec![a0];
+    order.extend(rest);
+    let g = w.create_group(&order, &[a0, a1], None, "field");
     w.t += 3;
     // remove `rm`; it never processes its removal and keeps its stale epoch-1 state
     let r = w.act_commit_remove_target(a0, g, rm, rng).unwrap();
